@@ -1,22 +1,34 @@
-import Lemmas.RateLimiterLive
+import Lemmas.RateLimiterWitness
+import Lemmas.RateLimiterCapMax
 import Lemmas.RateLimiterBounds
+import Lemmas.RateLimiterExec
 /-! # C16 — the rate limiter never grants more than any applicable cap and never hangs
 
-Property theorems only.  The model is `Model/RateLimiter.lean`: the transition relation `RL.Step` (every critical
-section of `rate/limiter.go` is one atomic step; the ticker goroutine and the goroutine inside root `Close` have program
-counters for their lock acquisitions and the hand-over on the unbuffered `done` channel) and the executable scheduler
-`RL.exec`, which the driver `drv_c16` runs against the Go code and which only produces runs of `RL.Step`
-(`exec_is_run`).  `Reachable c s`: `s` is reachable from `rate.New(c, period)` by any interleaving of the steps — all
-trees (children may have larger caps than their parents), all request streams, `Close` and `SetCap` at any point.
-`SetCap` is a step of `RL.Step`; every theorem below holds with `SetCap` calls anywhere in the run, except the two cap
-bounds `granted_le_cap` / `granted_le_min_cap_of_chain`, which carry the hypothesis `s.setCaps = 0` — no `SetCap` so far
-(DESIGN Appendix B: `SetCap` mid-period is outside the stated quantifier).  `gsum p x s.glog` is the total amount granted in period `p` to limiter `x`
-and all its descendants, read off the log of grants. -/
+Property theorems only.  The model is `Model/RateLimiter.lean`: the transition relation `RL.Step`, in which
+`controller.lock` is a field of the state — taken and released by explicit steps of the ticker goroutine (select / lock /
+body / unlock), of the goroutine in root `Close` (lock / mark / unlock / send on the unbuffered `done`) and of the callers
+of the API (lock / body-and-unlock) — and a step that needs the lock is enabled only while it is free; `RL.StepU`, the
+same system with root `Close` in the order of the code before commit 3e6b23a (send while holding the lock); the named
+single steps `RL.micro`, schedules `RL.runMicros` and the fused scheduler `RL.exec`, which the driver `drv_c16` runs
+against the Go code and which only produce runs of `RL.Step` (`exec_is_run`, `schedule_is_run`).
+`Reachable c s`: `s` is reachable from `rate.New(c, period)` by ANY interleaving of the steps — all trees (children may
+have larger caps than their parents), all request streams, `Close` and `SetCap` at any point, the lock held by anybody.
+`gsum p x s.glog` is the total amount granted in period `p` to limiter `x` and all its descendants, read off the log of
+grants; `s.capMax p x` is the largest capacity `x` had at any moment of period `p`.
+
+The history fields (`answered`, `glog`, `capMax`, …) are written by the model in the same atomic step as the action they
+record: `answer_exactly_once`, `nil_only_after_charge`, `closed_never_granted` say that the bookkeeping the model does
+while it transcribes the code's critical sections has these properties over all interleavings; that the code's
+critical sections write what the model writes is the transcription, checked by the correspondence run. -/
 namespace C16
 open RL
 
 /-- the executable scheduler run by the driver only produces runs of the transition relation the theorems are about -/
 theorem exec_is_run (s : S) (op : Op) : Steps s (exec s op) := exec_steps s op
+
+/-- … and so does every schedule of named single steps (the driver's area `window` runs the interleavings of a tick,
+    root `Close` and API calls through `runMicros`) -/
+theorem schedule_is_run (s : S) (ms : List Micro) : Steps s (runMicros s ms) := runMicros_steps s ms
 
 /-- so every state the driver visits is covered by the theorems below -/
 theorem run_reachable (c : Nat) (ops : List Op) : Reachable c (run (init c) ops) := by
@@ -31,8 +43,51 @@ theorem run_reachable (c : Nat) (ops : List Op) : Reachable c (run (init c) ops)
     apply ih
     exact hr.steps (exec_steps s op)
 
-/-- **granted ≤ cap**: in every period `p` the total granted by a limiter together with all its descendants is at
-    most its capacity -/
+/-- **granted ≤ the cap in force**, with `SetCap` anywhere in the run: in every period `p` the total granted by a
+    limiter together with all its descendants is at most the largest capacity the limiter had during that period -/
+theorem granted_le_max_cap_in_force (c : Nat) (s : S) (h : Reachable c s) (p x : Nat) :
+    gsum p x s.glog ≤ s.capMax p x := by
+  have ci := capMaxInv h
+  rcases Nat.lt_trichotomy p s.ticks with hp | hp | hp
+  · exact ci.past p hp x
+  · subst hp; exact ci.cur x
+  · rw [gsum_zero_of_period]
+    · exact Nat.zero_le _
+    · intro g hg; have := (grantInv h).period_le g hg; omega
+
+/-- … and at most the largest capacity each of its ancestors had during that period -/
+theorem granted_le_max_cap_of_chain (c : Nat) (s : S) (h : Reachable c s) (p l : Nat) :
+    ∀ y ∈ s.chain l, gsum p l s.glog ≤ s.capMax p y := by
+  intro y hy
+  have t := tree h
+  have gi := grantInv h
+  have key : ∀ g ∈ s.glog, l ∈ g.chain → y ∈ g.chain := by
+    intro g hg hlg
+    rw [(gi.chain_eq g hg).2] at hlg ⊢
+    exact t.trans _ _ _ hlg hy
+  refine Nat.le_trans ?_ (granted_le_max_cap_in_force c s h p y)
+  generalize s.glog = log at key
+  induction log with
+  | nil => exact Nat.le_refl _
+  | cons g gs ih =>
+    have k1 := key g List.mem_cons_self
+    have k2 := ih (fun g' hg' => key g' (List.mem_cons_of_mem _ hg'))
+    simp only [gsum]
+    by_cases hp : g.period = p
+    · by_cases hm : l ∈ g.chain
+      · simp only [hp, hm, k1 hm, and_self, if_true]; omega
+      · simp only [hp, hm, and_false, if_false, true_and]; split <;> omega
+    · simp only [hp, false_and, if_false]; omega
+
+/-- the current cap IS the largest cap of the current period as long as `SetCap` has not been called: the bounds
+    without `SetCap` below are the special case -/
+theorem max_cap_in_force_is_cap (c : Nat) (s : S) (h : Reachable c s) (hz : s.setCaps = 0) (x : Nat) :
+    s.capMax s.ticks x = s.cap x ∧ gsum s.ticks x s.glog ≤ s.cap x := by
+  have e := capMax_cur_eq_cap h hz x
+  exact ⟨e, e ▸ granted_le_max_cap_in_force c s h s.ticks x⟩
+
+/-- **granted ≤ cap** (no `SetCap` so far): in every period `p` the total granted by a limiter together with all its
+    descendants is at most its capacity -/
 theorem granted_le_cap (c : Nat) (s : S) (h : Reachable c s) (hz : s.setCaps = 0) (p x : Nat) :
     gsum p x s.glog ≤ s.cap x :=
   gsum_le_cap h hz p x
@@ -145,42 +200,33 @@ theorem closed_never_granted (s s' : S) (st : Step s s') (g : Grant) (hg : g ∈
   · exact absurd h hnew
   · exact h
 
-/-- **immediate errors**: a negative amount is refused; on a closed limiter EVERY non-negative amount (0 included) is
-    answered "closed"; on an open limiter an amount above its own cap is answered with the cap error — all at once,
-    nothing is queued, nothing is charged -/
-theorem immediate_errors (c : Nat) (s : S) (h : Reachable c s) (l : Nat) (amt : Int) (hl : l < s.n) :
+/-- **immediate errors** (`exec` in a state in which nobody holds the lock): a negative amount is refused; on a closed
+    limiter EVERY non-negative amount (0 included) is answered "closed"; on an open limiter an amount above its own
+    cap is answered with the cap error — all at once, nothing is queued, nothing is charged -/
+theorem immediate_errors (s : S) (hf : s.holder = .free) (l : Nat) (amt : Int) (hl : l < s.n) :
     (amt < 0 → exec s (.use l amt) = answer s .errNeg) ∧
     (0 ≤ amt → s.closed l = true → exec s (.use l amt) = answer s .errClosed) ∧
-    (0 < amt → s.closed l = false → amt.toNat > s.cap l → exec s (.use l amt) = answer s .errCap) := by
-  have hlk : s.lockHeld = false := lockFree h
-  refine ⟨?_, ?_, ?_⟩
-  · intro ha; simp [exec, hl, ha]
-  · intro ha hc
-    have h1 : ¬ amt < 0 := by omega
-    simp [exec, hl, h1, hlk, hc]
-  · intro ha hc hb
-    have h1 : ¬ amt < 0 := by omega
-    have h2 : ¬ amt = 0 := by omega
-    simp [exec, hl, h1, h2, hlk, hc, hb]
+    (0 < amt → s.closed l = false → amt.toNat > s.cap l → exec s (.use l amt) = answer s .errCap) :=
+  ⟨exec_use_neg s hf l amt hl, exec_use_closed s hf l amt hl, exec_use_toobig s hf l amt hl⟩
+
+/-- the same at the level of single steps, for ANY reachable state: whoever holds the lock as a caller of `Use` on a
+    closed limiter can only answer "closed" -/
+theorem use_on_closed_fails (s : S) (l amt : Nat) (hl : l < s.n) (ha : s.holder = .api) (hc : s.closed l = true) :
+    micro s (.use l amt) = unlock (answer s .errClosed) := by
+  simp [micro, hl, ha, hc]
 
 /-- `Use(0)` on an open limiter answers nil at once (a grant of 0: no limiter's `used` changes) -/
-theorem use_zero_open (c : Nat) (s : S) (h : Reachable c s) (l : Nat) (hl : l < s.n) (ho : s.closed l = false) :
-    exec s (.use l 0) = doUseZero s l ∧ (doUseZero s l).used = s.used ∧ (doUseZero s l).waiting = s.waiting := by
-  have hlk : s.lockHeld = false := lockFree h
-  refine ⟨?_, rfl, rfl⟩
-  simp [exec, hl, hlk, ho]
+theorem use_zero_open (s : S) (hf : s.holder = .free) (l : Nat) (hl : l < s.n) (ho : s.closed l = false) :
+    exec s (.use l 0) = doUseZero s l ∧ (doUseZero s l).used = s.used ∧ (doUseZero s l).waiting = s.waiting :=
+  ⟨exec_use_zero s hf l hl ho, rfl, rfl⟩
 
 /-- the other two outcomes of `Use`: granted at once exactly when there is room along the whole chain, queued (at
     the end of the queue) otherwise -/
-theorem use_grants_iff_room (c : Nat) (s : S) (h : Reachable c s) (l : Nat) (amt : Int) (hl : l < s.n) (ha : 0 < amt)
+theorem use_grants_iff_room (s : S) (hf : s.holder = .free) (l : Nat) (amt : Int) (hl : l < s.n) (ha : 0 < amt)
     (ho : s.closed l = false) (hb : amt.toNat ≤ s.cap l) :
     exec s (.use l amt) =
-      if fits s.cap s.used (s.chain l) amt.toNat then doUseGrant s l amt.toNat else doUseWait s l amt.toNat := by
-  have hlk : s.lockHeld = false := lockFree h
-  have h1 : ¬ amt < 0 := by omega
-  have h2 : ¬ amt = 0 := by omega
-  have h3 : ¬ amt.toNat > s.cap l := by omega
-  simp [exec, hl, h1, h2, hlk, ho, h3]
+      if fits s.cap s.used (s.chain l) amt.toNat then doUseGrant s l amt.toNat else doUseWait s l amt.toNat :=
+  exec_use_room s hf l amt hl ha ho hb
 
 /-- **FIFO**: the queue is in arrival order; a tick serves it front to back — what happens to a request depends only
     on the requests ahead of it (`service (pre ++ post)` = serve `pre`, then `post` with what `pre` left) — and the
@@ -204,54 +250,56 @@ theorem head_of_queue_served_at_tick (c : Nat) (s : S) (h : Reachable c s) (r : 
   head_served h r rest hw ho hfit
 
 /-- **Close marks the subtree**: after `Close` of limiter `l` (root or child, open or already closed) `l` and every
-    descendant are closed.  (For an open root the scheduler performs the whole `Close`, which needs the closer not to
-    have started and the ticker goroutine at its `select` — true in every state the scheduler itself produces.) -/
-theorem close_marks_subtree (c : Nat) (s : S) (h : Reachable c s) (l : Nat) (hl : l < s.n)
+    descendant are closed.  (`exec`, in a state in which nobody holds the lock; for an open root the scheduler performs
+    the whole `Close`, which needs the closer not to have started and the ticker goroutine at its `select`.  For
+    arbitrary interleavings: `root_close_closes_all`, `closed_stays_closed` and `RL.doCloseChild`.) -/
+theorem close_marks_subtree (c : Nat) (s : S) (h : Reachable c s) (hf : s.holder = .free) (l : Nat) (hl : l < s.n)
     (hsched : l ≠ 0 ∨ s.closed 0 = true ∨ (s.cpc = .idle ∧ s.tpc = .sel)) :
     (∀ x, l ∈ s.chain x → (exec s (.close l)).closed x = true) ∧ (exec s (.close l)).closed l = true := by
   have t := tree h
-  have hlk : s.lockHeld = false := lockFree h
   have main : ∀ x, l ∈ s.chain x → (exec s (.close l)).closed x = true := by
     intro x hx
-    cases hc : s.closed l with
-    | true => simp only [exec, hl, hlk, hc]; simpa using t.down x l hc hx
-    | false =>
-      by_cases h0 : l = 0
-      · subst h0
+    by_cases h0 : l = 0
+    · subst h0
+      cases hc : s.closed 0 with
+      | true => rw [exec_close_root_closed s hf hl hc]; exact t.down x 0 hc hx
+      | false =>
         rcases hsched with h1 | h1 | h1
         · exact absurd rfl h1
         · rw [hc] at h1; cases h1
-        · simp [exec, hl, hlk, hc, h1, doDrain, doDoneReceived, doCloseRootMark]
-      · simp [exec, hl, hlk, hc, h0, doCloseChild, hx]
+        · rw [exec_close_root s hf hl hc h1.1 h1.2]; rfl
+    · cases hc : s.closed l with
+      | true => rw [exec_closeChild_closed s hf l hl h0 hc]; exact t.down x l hc hx
+      | false =>
+        rw [exec_closeChild_open s hf l hl h0 hc]
+        show (s.closed x || decide (l ∈ s.chain x)) = true
+        simp [hx]
   exact ⟨main, main l (t.self l hl)⟩
 
 /-- **Close marks the subtree and fails the pending requests** (the two halves together): after `Close l` everything
     below `l` is closed, and every request then waiting on a closed limiter is answered "closed" by the next tick of
     the ticker goroutine or by its final drain, whichever comes first -/
-theorem close_marks_subtree_and_fails_pending (c : Nat) (s : S) (h : Reachable c s) (l : Nat) (hl : l < s.n)
-    (hsched : l ≠ 0 ∨ s.closed 0 = true ∨ (s.cpc = .idle ∧ s.tpc = .sel)) :
+theorem close_marks_subtree_and_fails_pending (c : Nat) (s : S) (h : Reachable c s) (hf : s.holder = .free) (l : Nat)
+    (hl : l < s.n) (hsched : l ≠ 0 ∨ s.closed 0 = true ∨ (s.cpc = .idle ∧ s.tpc = .sel)) :
     let s' := exec s (.close l)
     (∀ x, l ∈ s.chain x → s'.closed x = true) ∧
     (∀ r ∈ s'.waiting, s'.closed r.lim = true →
       (r.id, Ans.errClosed) ∈ (doTickRuns s').answered ∧ (r.id, Ans.errClosed) ∈ (doDrain s').answered) := by
-  refine ⟨(close_marks_subtree c s h l hl hsched).1, ?_⟩
+  refine ⟨(close_marks_subtree c s h hf l hl hsched).1, ?_⟩
   intro r hr hc
   exact ⟨List.mem_append_left _ (service_closed _ _ _ _ _ _ r hr hc),
          List.mem_append_left _ (List.mem_map.mpr ⟨r, hr, rfl⟩)⟩
 
-/-- root `Close` as performed by the scheduler: everything is closed, the queue is drained, the goroutine has ended
-    and `Close` has returned -/
-theorem root_close_completes (c : Nat) (s : S) (h : Reachable c s) (ho : s.closed 0 = false)
+/-- root `Close` as performed by the scheduler: everything is closed, the queue is drained, the goroutine has ended,
+    `Close` has returned and the lock is free -/
+theorem root_close_completes (c : Nat) (s : S) (h : Reachable c s) (hf : s.holder = .free) (ho : s.closed 0 = false)
     (hsched : s.cpc = .idle ∧ s.tpc = .sel) :
     let s' := exec s (.close 0)
-    (∀ x, s'.closed x = true) ∧ s'.waiting = [] ∧ s'.tpc = .tend ∧ s'.cpc = .ret ∧
+    (∀ x, s'.closed x = true) ∧ s'.waiting = [] ∧ s'.tpc = .tend ∧ s'.cpc = .ret ∧ s'.holder = .free ∧
     (∀ r ∈ s.waiting, (r.id, Ans.errClosed) ∈ s'.answered) := by
-  have hlk : s.lockHeld = false := lockFree h
   have hn : 0 < s.n := init_n_pos h
-  have he : exec s (.close 0) = doDrain (doDoneReceived (doCloseRootMark s)) := by
-    simp [exec, hn, hlk, ho, hsched]
-  simp only [he]
-  refine ⟨fun _ => rfl, rfl, rfl, rfl, ?_⟩
+  simp only [exec_close_root s hf hn ho hsched.1 hsched.2]
+  refine ⟨fun _ => rfl, rfl, rfl, rfl, rfl, ?_⟩
   intro r hr
   exact List.mem_append_left _ (List.mem_map.mpr ⟨r, hr, rfl⟩)
 
@@ -276,59 +324,106 @@ theorem queued_above_lowered_cap_fails_at_tick (s : S) (r : Req) (hr : r ∈ s.w
     (hb : r.amt > s.cap r.lim) : (r.id, Ans.errCap) ∈ (doTickRuns s).answered :=
   List.mem_append_left _ (service_toobig _ _ _ _ _ _ r hr ho hb)
 
-/-- `SetCap` itself never blocks and changes nothing but the capacity (and the call counter) -/
-theorem setCap_returns (c : Nat) (s : S) (h : Reachable c s) (l k : Nat) (hl : l < s.n) :
-    Step s (doSetCap s l k) ∧ exec s (.setCap l k) = doSetCap s l k ∧ (doSetCap s l k).cap l = k ∧
+/-- `SetCap` changes nothing but the capacity (and the history of capacities) -/
+theorem setCap_effect (s : S) (hf : s.holder = .free) (l k : Nat) (hl : l < s.n) :
+    exec s (.setCap l k) = doSetCap s l k ∧ (doSetCap s l k).cap l = k ∧
     (doSetCap s l k).waiting = s.waiting ∧ (doSetCap s l k).used = s.used := by
-  have hlk : s.lockHeld = false := lockFree h
-  refine ⟨Step.setCap s l k hl hlk, ?_, ?_, rfl, rfl⟩
-  · simp [exec, hl, hlk]
-  · simp [doSetCap, upd]
+  refine ⟨exec_setCap s hf l k hl, ?_, rfl, rfl⟩
+  simp [doSetCap, upd]
 
-/-- after root `Close` has marked the tree every limiter is closed, and stays so -/
-theorem root_close_closes_all (c : Nat) (s : S) (h : Reachable c s) (hc : s.cpc ≠ .idle) (x : Nat) :
-    s.closed x = true := allClosed h (Or.inl hc) x
+/-- once root `Close` has marked the tree — in every interleaving, whatever the other goroutines do — every limiter is
+    closed, and stays so -/
+theorem root_close_closes_all (c : Nat) (s : S) (h : Reachable c s)
+    (hc : s.cpc = .marked ∨ s.cpc = .send ∨ TDone s) (x : Nat) : s.closed x = true := allClosed h hc x
 
-/-- **Close returns** (deadlock freedom of the lock / `done` protocol as repaired): the lock is never held while a
-    goroutine is blocked; no reachable state has the closer blocked on `done` with neither it nor the ticker goroutine
-    able to move; and from every such state at most two steps of the ticker goroutine complete the hand-over -/
+/-- **the lock**: mutual exclusion, and in particular *whoever is at the send on `done` does not hold the lock* — the
+    ticker goroutine holds it exactly between its `Lock()` and `Unlock()`, the goroutine in root `Close` exactly while
+    it is at `crit` or `marked`, never at `send` -/
+theorem lock_discipline (c : Nat) (s : S) (h : Reachable c s) :
+    (s.holder = .ticker ↔ (s.tpc = .tcrit ∨ s.tpc = .tunl ∨ s.tpc = .dcrit ∨ s.tpc = .dunl)) ∧
+    (s.holder = .closer ↔ (s.cpc = .crit ∨ s.cpc = .marked)) ∧ (s.cpc = .send → s.holder ≠ .closer) := by
+  obtain ⟨h1, h2, _⟩ := lockInv h
+  refine ⟨h1, h2, ?_⟩
+  intro hs hq
+  rcases h2.mp hq with h | h <;> rw [hs] at h <;> cases h
+
+/-- **Close returns** (deadlock freedom of the lock / `done` protocol as repaired), over all interleavings: no reachable
+    state has the closer inside `Close` with neither it, nor the ticker goroutine, nor the holder of the lock able to
+    move; whoever holds the lock can release it by steps of its own; and from every state in which the closer is blocked
+    on `done`, steps of the lock holder and the ticker goroutine alone complete the hand-over -/
 theorem close_returns (c : Nat) (s : S) (h : Reachable c s) :
-    s.lockHeld = false ∧ ¬ Deadlocked s ∧ (s.cpc = .send → ∃ s', Steps s s' ∧ s'.cpc = .ret) :=
-  ⟨lockFree h, not_deadlocked h, close_can_return h⟩
+    ¬ Deadlocked s ∧ (s.holder ≠ .free → ∃ s', Steps s s' ∧ s'.holder = .free) ∧
+    (s.cpc = .send → ∃ s', Steps s s' ∧ s'.cpc = .ret) :=
+  ⟨not_deadlocked h, lock_released h, close_can_return h⟩
+
+/-- **contrast — the unrepaired order dead-locks** (`seeded/revert-c16-close-deadlock`, the code before commit 3e6b23a):
+    in `StepU`, where root `Close` sends on `done` while still holding the lock, a deadlocked state IS reachable, by the
+    schedule "a tick fires; `Close` takes the lock and marks the tree": the closer waits for the ticker goroutine's
+    `select`, the ticker goroutine waits for the lock, the closer holds the lock.  So `close_returns` is a property of
+    the repaired order, not of the way the model is written. -/
+theorem unrepaired_close_deadlocks : ∃ s, ReachableU 5 s ∧ DeadlockedIn StepU s :=
+  ⟨stuckState, stuckState_reachableU, stuckState_deadlocked⟩
 
 /-- **Close returns**, liveness form: on every infinite run of the system — any interleaving of any requests, ticks,
-    child creations and closes — root `Close`, once it is blocked on `done`, returns, provided the scheduler is fair in
-    the two ways `TickerScheduled` (a ticker goroutine waiting for the free lock eventually runs) and `SelectFair` (a
-    `select` that finds `done` ready again and again eventually takes it).  Nothing else is assumed: the protocol
-    itself never blocks the hand-over (with the unrepaired `Close`, `TickerScheduled` cannot hold:
-    `held_lock_would_deadlock`). -/
-theorem close_returns_under_fair_scheduling (c : Nat) (run : Nat → S) (h0 : run 0 = init c)
-    (hs : ∀ i, Step (run i) (run (i + 1))) (f1 : TickerScheduled run) (f2 : SelectFair run) (i : Nat)
-    (hi : (run i).cpc = .send) : ∃ j, i ≤ j ∧ (run j).cpc = .ret :=
-  close_terminates_fair c run h0 hs f1 f2 i hi
+    child creations, closes and `SetCap`s — root `Close`, once it has the lock, returns, under assumptions about the
+    SCHEDULER only: goroutines inside a critical section of their own are scheduled (`HoldersRun`), the lock is fair to
+    the waiting ticker goroutine (`LockFair`: free again and again ⇒ `tickLock` is taken), `select` is fair
+    (`SelectFair`: the `done` case ready again and again ⇒ `doneReceived` is taken).  That the lock IS free again and
+    again and the `done` case IS ready again and again is derived from the protocol (`lock_discipline`); with the
+    unrepaired order it is false (`unrepaired_close_deadlocks`). -/
+theorem close_returns_under_fair_scheduling (c : Nat) (run : Nat → S) (r : IsRun c run) (hr : HoldersRun run)
+    (lf : LockFair run) (sf : SelectFair run) (i : Nat)
+    (hi : (run i).cpc = .crit ∨ (run i).cpc = .marked ∨ (run i).cpc = .send) : ∃ j, i ≤ j ∧ (run j).cpc = .ret :=
+  close_returns_fair r hr lf sf i hi
 
-/-- `Close` of a child, and every other call that only needs the lock, is enabled in every reachable state (nobody
-    keeps the lock) -/
-theorem child_close_returns (c : Nat) (s : S) (h : Reachable c s) (l : Nat) (hl : l < s.n) (h0 : l ≠ 0)
-    (ho : s.closed l = false) : Step s (doCloseChild s l) :=
-  Step.closeChild s l hl h0 (lockFree h) ho
+/-- the fairness assumptions are satisfiable together: a concrete infinite run (root `Close`, the drain, then
+    `Use(-1)` for ever) meets all of them, has the closer blocked on `done` at instant 3 and returned at instant 4 -/
+theorem fair_run_exists :
+    IsRun 5 witness ∧ HoldersRun witness ∧ LockFair witness ∧ SelectFair witness ∧
+    (witness 3).cpc = .send ∧ (witness 4).cpc = .ret :=
+  ⟨witness_isRun, witness_holdersRun, witness_lockFair, witness_selectFair, witness_close.1, witness_close.2⟩
 
-/-- the ticker goroutine, too, always gets the lock: both of its critical sections are enabled whenever it waits -/
+/-- **API calls return**: in every reachable state a caller of `Use`, `New`, `SetCap`, `Cap`, `LastUsed`, `Closed` or
+    child `Close` finds the lock free and can take it, or the holder can release it by steps of its own; and once the
+    caller has it, its body (here: child `Close`) is enabled -/
+theorem api_call_returns (c : Nat) (s : S) (h : Reachable c s) :
+    (s.holder = .free → Step s (lockApi s)) ∧ (s.holder ≠ .free → ∃ s', Steps s s' ∧ s'.holder = .free) ∧
+    (∀ l, l < s.n → l ≠ 0 → s.closed l = false → s.holder = .api → Step s (unlock (doCloseChild s l))) :=
+  ⟨fun hf => .apiLock s hf, lock_released h, fun l hl h0 ho ha => .closeChild s l hl h0 ha ho⟩
+
+/-- **the ticker goroutine is never blocked for ever**: in every reachable state in which it waits for the lock, the
+    lock is free (its `Lock()` is enabled) or its holder can release it by steps of its own; inside its critical
+    sections its own steps are enabled -/
 theorem ticker_never_blocked (c : Nat) (s : S) (h : Reachable c s) :
-    (s.tpc = .tlock → Step s (doTickRuns s)) ∧ (s.tpc = .dlock → Step s (doDrain s)) :=
-  ⟨fun ht => Step.tickRuns s ht (lockFree h), fun ht => Step.drain s ht (lockFree h)⟩
-
-/-- contrast (the code before the repair kept the lock during the hand-over): a state with the lock held, the closer
-    blocked on `done` and the ticker goroutine waiting for the lock is stuck — `close_returns` is not vacuous -/
-theorem held_lock_would_deadlock (s : S) (h0 : s.lockHeld = true) (h1 : s.tpc = .tlock) (h2 : s.cpc = .send) :
-    Deadlocked s := held_lock_is_stuck s h0 h1 h2
+    ((s.tpc = .tlock ∨ s.tpc = .dlock) →
+      (s.holder = .free ∧ ((s.tpc = .tlock → Step s (doTickLock s)) ∧ (s.tpc = .dlock → Step s (doDrainLock s)))) ∨
+      (s.holder ≠ .free ∧ ∃ s', Steps s s' ∧ s'.holder = .free)) ∧
+    (s.tpc = .tcrit → Step s (doTickRuns s)) ∧ (s.tpc = .tunl → Step s (doTickUnlock s)) ∧
+    (s.tpc = .dcrit → Step s (doDrain s)) ∧ (s.tpc = .dunl → Step s (doDrainUnlock s)) := by
+  obtain ⟨h1, _, _⟩ := lockInv h
+  refine ⟨?_, ?_, fun ht => .tickUnlock s ht, ?_, fun ht => .drainUnlock s ht⟩
+  · intro _
+    by_cases hf : s.holder = .free
+    · exact Or.inl ⟨hf, fun ht => .tickLock s ht hf, fun ht => .drainLock s ht hf⟩
+    · exact Or.inr ⟨hf, lock_released h hf⟩
+  · exact fun ht => .tickRuns s ht (h1.mpr (Or.inl ht))
+  · exact fun ht => .drain s ht (h1.mpr (Or.inr (Or.inr (Or.inl ht))))
 
 /-! non-vacuity: a concrete run (root cap 5, child cap 9 above its parent): the second `Use(3)` on the child waits
     although the child has room, is served by the tick, and `LastUsed` of the root reports 4. -/
 example :
     let s := run (init 5) [.newChild 0 9, .use 1 3, .use 1 3, .use 0 1, .tick]
     s.answered = [(1, .ok), (2, .ok), (0, .ok)] ∧ s.last 0 = 4 ∧ s.used 0 = 3 ∧ s.waiting.length = 0 ∧
-    s.setCaps = 0 := by
+    s.setCaps = 0 ∧ s.holder = .free := by
+  decide
+
+/-! a schedule inside the Close-vs-tick window: the tick fires, root `Close` marks the tree while the ticker goroutine
+    waits for the lock, the tick then fails the waiting request, the hand-over and the drain follow -/
+example :
+    let s := runMicros (run (init 2) [.use 0 2, .use 0 1])
+      [.tickFires, .closeLock, .closeMark, .closeUnlock, .tickLock, .tickRuns, .tickUnlock, .doneReceived,
+       .drainLock, .drain, .drainUnlock]
+    s.answered = [(1, .errClosed), (0, .ok)] ∧ s.tpc = .tend ∧ s.cpc = .ret ∧ s.holder = .free := by
   decide
 
 end C16
